@@ -456,8 +456,9 @@ def r3_bounds(rep, g, a):
                 letter = alt[1][0][1]
                 n = alt[1][1][1]
                 arm = [r for r in rows if letter in r[0]]
-                hx = [x for x in g.subterms(arm[0][1]['p']) if x['op'] == 'ref' and last_seg(x['fn']) == 'hexescape'] if arm else []
-                got = g.generic_env(hx[0]).get('N') if hx else None
+                hx = [x for x in g.subterms(arm[0][1]['p']) if x['op'] in ('ref', 'call') and last_seg(x['fn']) == 'hexescape'] if arm else []
+                env_ = g.value_env(hx[0]) if hx else {}
+                got = env_.get('N') if 'N' in env_ else (list(env_.values())[0] if len(env_) == 1 else None)         # (a const generic or the one integer argument)
                 rep.check(R, f'strings::escape_seq_char|{chr(letter)}|hexescape', got == n, f"'{chr(letter)}' -> hexescape::<{got}> == ABNF {n}HEXDIG",
                           f"escape letter '{chr(letter)}' takes {got} hex digits, the ABNF requires {n}", loc)
     t = term(g, 'strings::hexescape')
@@ -466,10 +467,16 @@ def r3_bounds(rep, g, a):
     flt = [x for x in pm.filters(g, t) if x[0] == 'verify']
     ok = False
     detail = 'take_while bound or len verify missing'
+    # the number of digits is a const generic (`hexescape::<4>`) or an integer parameter (`hexescape(4)`): every name it may go by is bound
+    hb = facts.body(P + 'strings::hexescape')
+    nnames = [x for x in (facts.fns.get(P + 'strings::hexescape', {}).get('generics') or []) if not x.startswith("'")] + \
+        [p_['name'] for p_ in hb.get('params', []) if p_.get('k') == 'p_bind' and (p_.get('t') or '') in ('usize', 'u8', 'u16', 'u32', 'u64')]
     if len(toks) == 1 and toks[0].get('rng') is not None:
         for N in (4, 8):
+            nenv = {nm: N for nm in nnames}
+            nenv['N'] = N
             try:
-                lo, hi = g.ev.range(toks[0]['rng'], {'N': N})
+                lo, hi = g.ev.range(toks[0]['rng'], nenv)
             except Unanalysable as e:
                 detail = str(e)
                 break
@@ -483,7 +490,7 @@ def r3_bounds(rep, g, a):
                 keep = set()
                 for L in lens:
                     try:
-                        if interp.run(_len_subst(clo['body'], bvar), {'@len': L, 'N': N}):
+                        if interp.run(_len_subst(clo['body'], bvar), dict(nenv, **{'@len': L})):
                             keep.add(L)
                     except Unanalysable as e:
                         detail = str(e)
@@ -1183,6 +1190,19 @@ def rules(rep, facts):
     # R8 (FIRST / nullable) and R9 (2-byte prefixes) were the bounded predecessors of R10; R10 decides the same question exactly for every
     # length and follows helper calls with parser parameters, so the two are no longer evaluated (they only added brittleness)
     r10_regular_language(rep, g, a)
+    # R1 pairs the lexical atoms of a function with the ABNF classes by their position in the function; R10 compares the language of the function with its
+    # ABNF rule exactly.  Where R10 finds the two equal, the atoms are the right ones wherever they are written (moved into a shared helper, reordered), and a
+    # position that no longer pairs up is not a finding.
+    equal = {o['key'].split('=')[0] for o in rep.rules.get('C01/R10', {}).get('obligations', []) if o['ok'] and '=' in o['key']}
+    moot = [v for v in rep.violations if v['rule'] == 'C01/R1' and any(v['key'].split('|', 1)[-1].startswith(fn + '|') or f'`numbers::{fn.split("::")[-1]}`' in v['detail'] and fn.startswith('numbers::')
+                                                                       or f'`{fn}`' in v['detail'] for fn in equal)]
+    if moot:
+        rep.violations[:] = [v for v in rep.violations if v not in moot]
+        if 'C01/R1' in rep.rules:
+            rep.rules['C01/R1']['obligations'] = [o for o in rep.rules['C01/R1']['obligations'] if o['ok'] or not any(o['key'].startswith(fn + '|') for fn in equal)]
+            rep.rules['C01/R1']['floor'] = min(rep.rules['C01/R1'].get('floor') or 0, len(rep.rules['C01/R1']['obligations'])) or None
+        rep.notes.append(f'C01/R1 could not pair {len(moot)} lexical atoms with the ABNF by position ({moot[0]["detail"][:140]}); the functions concerned accept exactly the language of '
+                         f'their ABNF rules (C01/R10), so the atoms are the right ones.')
     if 'toml' in facts.crates:
         r7_single_parser(rep, facts)
     if 'toml' in facts.crates:
